@@ -70,9 +70,9 @@ type Sched struct {
 	timerN  int
 	panics  []string // panics of the code under test inside managed goroutines
 	// free-running stress
-	uniqueTimers bool              // every timer goroutine gets a fresh name
-	preLock      func(ev string)   // called WITHOUT s.mu before the event is recorded
-	postUnlock   func(ev string)   // called WITHOUT s.mu after the event was recorded
+	uniqueTimers bool            // every timer goroutine gets a fresh name
+	preLock      func(ev string) // called WITHOUT s.mu before the event is recorded
+	postUnlock   func(ev string) // called WITHOUT s.mu after the event was recorded
 }
 
 var theSched atomic.Pointer[Sched]
